@@ -181,6 +181,7 @@ def run(rep, tier):
                                                      'G3-protocol', 'G6-temp-unique'))
     for K, want in {'Let': 18, 'Seq': 1300, 'Where': 18, 'Apply': 36}.items():
         rep.floor(f'configurations of {K}', total.get(K, 0), want)
+    shared.driver_memo_per_call(rep)
     found, stats, nmods = routes.run(rep, 'C05', ['LOCAL-shadow', 'LOCAL-let-scope', 'C05-', 'C14-field-tables',
                                                    'ARG-captures'])
     rep.floor('generated classes examined', stats['classes'], 12)
